@@ -86,7 +86,7 @@ def model_part(v, tier, cov):
         runs.append({"run": what, "distinct": r.distinct, "generated": r.generated, "violated": r.violated,
                      "expected_violation": expect_violation, "wall_s": round(r.wall, 1)})
 
-    n_pct, n_flags = (5, 4) if quick else (7, 6)
+    n_pct, n_flags = (5, 4) if quick else (6, 6)
     r = tlc("ScrubPlanMC", mc_cfg("C15-mc-pct", "pct", n_pct))
     note("ScrubPlanMC pct: all info arrays <= %d positions x {absent, 3 times x bad} x 7 percentages x 4 age limits x 3 clocks"
          % n_pct, r)
@@ -518,7 +518,7 @@ def binding_part(v, tier, cov):
     s0 = vlib.seed() * 100000
     shapes = [(2, 1), (2, 2), (3, 1), (3, 2)]
     jobs = []
-    nrand, nsteps, ndir = (28, 14, 8) if quick else (220, 22, 40)
+    nrand, nsteps, ndir = (48, 14, 12) if quick else (260, 22, 48)
     for i in range(ndir):
         nd, np_ = shapes[i % len(shapes)]
         jobs.append((s0 + 500 + i, nd, np_, "bad-cycle" if i % 2 == 0 else "unsynced", 0, None))
@@ -557,7 +557,7 @@ def binding_part(v, tier, cov):
             v.violation("%s: step %d of scenario seed=%d (%dd/%dp, %s): %s\n%s" % (
                 sig, x["line"], sc["seed"], sc["nd"], sc["np"], sc["kind"],
                 sc["steps"][x["line"] - 2] if 0 <= x["line"] - 2 < len(sc["steps"]) else ev.get("e"), x["diag"][:1500]),
-                {"kind": "scrub-scenario", "seed": sc["seed"], "nd": sc["nd"], "np": sc["np"], "history": sc["kind"],
+                {"kind": "scrub-scenario", "seed": sc["seed"], "nd": sc["nd"], "np": sc["np"], "history": sc["kind"], "nsteps": sc["nsteps"],
                  "steps": sc["steps"][:x["line"]], "failing_event": {k: ev[k] for k in ev if k != "state"},
                  "info_before": sc["lines"][x["line"] - 2]["state"]["info"] if x["line"] >= 2 else None,
                  "info_after": ev.get("state", {}).get("info"), "diag": x["diag"]}, signature=sig)
@@ -605,6 +605,24 @@ def binding_part(v, tier, cov):
     if not v.violations and (nscrub == 0 or marks == 0 or cleared == 0 or plans.get("pct", 0) == 0):
         raise vlib.ToolFailure("the histories did not exercise the property (scrubs %d, marks set %d, cleared %d)" % (nscrub, marks, cleared))
     return states
+
+
+def replay(obj):
+    """re-execute a recorded violation: obj = the "replay" member of a file under out/replays/C15 (kind scrub-scenario).
+    Returns 1 if a scrub step is rejected again, 0 otherwise."""
+    if obj.get("kind") != "scrub-scenario":
+        print("replay: TLC counterexample on the model; re-run ./verif check C15 quick")
+        return 2
+    vlib.build("hooks")
+    vlib.build_shim()
+    sc = _scenario((obj["seed"], obj["nd"], obj["np"], obj["history"], obj.get("nsteps", 14), None))
+    if sc.get("err"):
+        raise vlib.ToolFailure(sc["err"])
+    f, acc, st = validate([sc], "C15-replay-%d" % obj["seed"])
+    for x in f:
+        print("step %d rejected: %s\n%s" % (x["line"], signature(x["diag"]), x["diag"][:1500]))
+    print("\n".join(sc["steps"]))
+    return 1 if f else 0
 
 
 def run(tier):
